@@ -251,7 +251,7 @@ def replay(ctx, spec, obj):
         return 1
     il = il[-1]
     f = C.fields(il)
-    rc2, o2 = C.sh([os.path.join(C.LEAN, ".lake", "build", "bin", "vdriver")],
+    rc2, o2 = C.sh([C.vdriver_exe()],
                    input="r\tcli\t" + vec + "\t" + f["OBS"] + "\n", timeout=120)
     ml = o2.strip().split("\t", 1)[1] if "\t" in o2 else ""
     mf = C.fields(ml)
